@@ -326,6 +326,53 @@ def run(cx):
                   "mat3x4 m({0.0, 0.0, 3.0}, {2.0, 0.0, 0.0}, {0.0, -1.0, 0.0}, {1.0, 2.0, 3.0});" in open(os.path.join(vp.ROOT, "harness/c14_bvh.cpp")).read(),
                   "harness/c14_bvh.cpp no longer uses the matrix that T_ROWS in checks/C14.py encodes")
 
+    # the guard of Collider::Transform: IsAxisAligned must say yes exactly for matrices whose linear rows have one
+    # non-zero entry each (atrans of the model); whenever it says yes, Box::Transform (two corners) must be the exact
+    # image hull of the box (all eight corners) - otherwise the kept BVH no longer bounds the transformed leaves
+    arng = random.Random(cx.seed * 271 + 1415)
+    ax_lines, ax_want = [], {}
+    for i in range(cx.pick(600, 6000)):
+        rows = []
+        for r in range(3):
+            mode = arng.randrange(6)
+            row = [0, 0, 0]
+            if mode <= 2:
+                row[arng.randrange(3)] = arng.choice([-3, -2, -1, 1, 2, 5])          # one entry
+            elif mode == 3:
+                row = [arng.choice([-2, -1, 0, 1, 2]) for _ in range(3)]                # anything
+            elif mode == 4:
+                j = arng.randrange(3); row[j] = arng.choice([-1, 1, 2]); row[(j + 1 + arng.randrange(2)) % 3] = arng.choice([-2, -1, 1])   # two entries (shear)
+            rows.append(row + [arng.randrange(-4, 5)])
+        if i % 3 == 0:            # only the last / only one row off: the sharpest cases
+            good = [[0, 0, 0, arng.randrange(-3, 4)] for _ in range(3)]
+            perm = [0, 1, 2]; arng.shuffle(perm)
+            for r in range(3):
+                good[r][perm[r]] = arng.choice([-2, -1, 1, 3])
+            bad_row = arng.randrange(3)
+            if arng.random() < 0.7:
+                good[bad_row][(perm[bad_row] + 1 + arng.randrange(2)) % 3] = arng.choice([-2, -1, 1, 2])
+            rows = good
+        lo = [arng.randrange(-5, 6) for _ in range(3)]
+        hi = [a + arng.randrange(0, 6) for a in lo]
+        ax_lines.append("AX a%d %s %s" % (i, " ".join(str(x) for r in rows for x in r), " ".join(map(str, lo + hi))))
+        ax_want["a%d" % i] = all(sum(1 for x in r[:3] if x == 0) == 2 for r in rows)
+    out_ax, crashes_ax = vp.run_cases(exe, ax_lines, lambda l: l.split()[1], lambda l: l.split()[1] if l.startswith("X ") else None, timeout=600)
+    ax_n = {"aligned": 0, "not_aligned": 0}
+    line_of_ax = {l.split()[1]: l for l in ax_lines}
+    for l in out_ax.splitlines():
+        t = l.split()
+        if t[0] != "X":
+            continue
+        want = ax_want[t[1]]
+        ax_n["aligned" if want else "not_aligned"] += 1
+        if int(t[2]) != int(want):
+            cx.violation("is-axis-aligned-wrong", "Collider::IsAxisAligned answers %s for a matrix whose linear rows %s one non-zero entry each: Collider::Transform / "
+                         "Impl::Transform would %s" % (t[2], "have" if want else "do not all have", "rebuild needlessly" if want else "keep a BVH whose two-corner boxes do not bound the transformed leaves"),
+                         {"case": line_of_ax[t[1]], "two_corner_box": t[3:9], "eight_corner_hull": t[9:15]})
+        elif int(t[2]) == 1 and t[3:9] != t[9:15]:
+            cx.violation("box-transform-not-the-image-hull", "for an axis-aligned matrix Box::Transform differs from the hull of the eight mapped corners", {"case": line_of_ax[t[1]], "two_corner_box": t[3:9], "eight_corner_hull": t[9:15]})
+    cx.cov["is_axis_aligned"] = ax_n
+
     mism, nontriv, seen = 0, 0, set()
     dist = {"n<=8": 0, "n<=64": 0, "n>64": 0, "self": 0, "point": 0, "dupcodes": 0}
     if impl.get("SPREAD") != model.get("SPREAD"):
